@@ -1,8 +1,8 @@
 (* Correspondence judge for C08: a case is (parser, the objects built before the call, the call,
    what a deep snapshot saw afterwards). *)
-From JV Require Import Lib.Base Model.C08Heap Spec.C08FrameSpec.
+From JV Require Import Lib.Base Model.C08Heap Model.C08Inst Spec.C08FrameSpec.
 
-Record case := {
+Record hcase := {
   c_parser : parser;
   c_heap : heap;              (* arguments and declared defaults, as built by the harness *)
   c_op : op;
@@ -14,18 +14,58 @@ Record case := {
 
 Definition is_get_defaults (o : op) : bool := match o with OGetDefaults => true | _ => false end.
 
-Definition judge1 (c : case) : verdict :=
+(* fx = false: the pinned tree (faithful model, finding classes of Model.C08Heap.guard_class);
+   fx = true : the tree with both C08 patches (run_op_fixed; Properties/C08.v C08_fixed_frame holds
+               without guard, so there is no finding class: any recurrence is a violation).
+
+   Outside the guard a case is attributed to its listed finding class only if the implementation
+   fails EXACTLY as the faithful model says (bug for bug); a spec failure that the model does not
+   reproduce is a different defect and gets the unlisted class 9. *)
+Definition judge_heap (fx : bool) (c : hcase) : verdict :=
   let n0 := length (c_heap c) in
-  let r := run_op (c_parser c) (c_op c) (mkst (c_heap c) g0) in
+  let r := run_op_gen fx (c_parser c) (c_op c) (mkst (c_heap c) g0) in
   let s := out_st r in
   let m_ok := match r with Ok _ _ => true | Err _ _ => false end in
   let m_res := match r with Ok v s' => view FUEL n0 (s_h s') v | Err _ _ => ONone end in
   let m_after := view_old n0 (s_h s) in
   let m_glob := map (fun x => N.eqb (s_g s x) 0) (seq 0 NGLOBALS) in
-  {| v_model := Bool.eqb m_ok (c_ok c) && oval_eqb m_res (c_result c)
-                && list_eqb oval_eqb m_after (c_after c) && list_eqb Bool.eqb m_glob (c_globals c);
-     v_class := guard_class (c_parser c) (c_heap c) (c_op c);
-     v_spec := spec_ok (c_heap c) (c_after c) (c_globals c) (c_defaults_same c)
-                       (is_get_defaults (c_op c)) (c_result c) |}.
+  let model := Bool.eqb m_ok (c_ok c) && oval_eqb m_res (c_result c)
+               && list_eqb oval_eqb m_after (c_after c) && list_eqb Bool.eqb m_glob (c_globals c) in
+  let spec := spec_ok (c_heap c) (c_after c) (c_globals c) (c_defaults_same c)
+                      (is_get_defaults (c_op c)) (c_result c) in
+  let k := guard_class (c_parser c) (c_heap c) (c_op c) in
+  {| v_model := model;
+     v_class := if fx then 0%N
+                else if N.eqb k 0 then 0%N
+                else if negb model && negb spec then 9%N else k;
+     v_spec := spec |}.
 
+(* ---- "instantiate twice" cases (Model/C08Inst.v): the configuration as a tree of class specs, the
+   number of objects of the class family that existed before, and the identities (numbered by first
+   appearance) of the objects the two calls built, in post-order. *)
+Record icase := {
+  i_ok : bool;                (* parse + both instantiate_classes calls returned *)
+  i_c : nat;
+  i_cfg : ivals;
+  i_ids1 : list nat;
+  i_ids2 : list nat;
+  i_cfg_same : bool }.        (* the configuration handed to both calls is unchanged *)
+
+Definition list_nat_eqb := list_eqb Nat.eqb.
+Definition judge_inst (c : icase) : verdict :=
+  let m := inst_twice (i_c c) (i_cfg c) in
+  {| v_model := i_ok c && list_nat_eqb (fst m) (i_ids1 c) && list_nat_eqb (snd m) (i_ids2 c) && i_cfg_same c;
+     v_class := 0;
+     v_spec := i_ok c && fresh_twice_ok (i_c c) (i_cfg c) (i_ids1 c) (i_ids2 c) && i_cfg_same c |}.
+
+Inductive case := HeapCase (c : hcase) | InstCase (c : icase).
+Definition judge1_gen (fx : bool) (c : case) : verdict :=
+  match c with HeapCase h => judge_heap fx h | InstCase i => judge_inst i end.
+
+Definition judge1 : case -> verdict := judge1_gen false.
 Definition judge (cs : list case) := judge_all judge1 cs.
+
+(* ---- after fixes/C08-container-below-tuple-shared.patch and fixes/C08-parse-object-adapts-in-place.patch
+   have been applied: set JUDGE = "judge_fixed" in tie/props/c08.py *)
+Definition judge1_fixed : case -> verdict := judge1_gen true.
+Definition judge_fixed (cs : list case) := judge_all judge1_fixed cs.
